@@ -419,7 +419,13 @@ class Harness(object):
                             continue
                         if uncovered_local:
                             if key_error:
+                                # found on the pinned tree and repaired (known_findings.txt, fixed: C10): a point mass
+                                # in no index set of an intra-object type takes part in no factor - KeyError is wrong
                                 self.keyerror_uncovered_local += 1
+                                self.evaluations += 1
+                                self.bad(level_name + ": KeyError instead of no in-state for an active point mass that "
+                                         "occurs in no index set of an intra-object factor type", **active)
+                                continue
                             else:
                                 self.empty_uncovered_local += 1
                         self.compare(level_name, generated, expected, active)
@@ -463,7 +469,7 @@ class Harness(object):
             for label, text, n in every_order_files(level, rng):
                 for number_roots in (2, 3, 4):
                     self.check_case(label, text, n, number_roots, rng)
-            for label, text, n in random_files(level, rng, 1500 if level == 1 else 30000):
+            for label, text, n in random_files(level, rng, 1500 if level == 1 else 18000):
                 for number_roots in root_numbers:
                     self.check_case(label, text, n, number_roots, rng)
         finally:
